@@ -52,6 +52,9 @@ def cases(tier, seed):
     # histories: the quiet run is not the first thing that happens to the device / mesh object
     for (m, dens, sm), prior in itertools.product(meshes[:3] if quick else meshes[:6], ("pinned_driven_solve", "driven_solver_alive", "quiet_twice", "screened_driven_solve")):
         out.append(dict(dev=m, dens=dens, smooth=sm, gamma=10.0, u=5.79, adaptive=True, dt_max=1e-2, screening=False, prior=prior))
+    # one options object re-used for two solves, edited in between
+    for (m, dens, sm), prior in itertools.product(meshes[:2] if quick else meshes[:6], ("same_options_fixed_first", "same_options_larger_dt_max_first")):
+        out.append(dict(dev=m, dens=dens, smooth=sm, gamma=10.0, u=5.79, adaptive=True, dt_max=1e-2, screening=False, prior=prior))
     # ... and the quiet run itself is a screening run (the induced potential must stay identically zero whatever ran before)
     for (m, dens, sm), prior in itertools.product(meshes[:2] if quick else meshes[:6], ("screened_driven_solve", "quiet_twice")):
         out.append(dict(dev=m, dens=dens, smooth=sm, gamma=10.0, u=5.79, adaptive=True, dt_max=1e-2, screening=True, prior=prior))
@@ -104,6 +107,17 @@ def run_case(case):
     if not unstable:
         res.count("stable_regime_runs")
     raised = None
+    if prior in ("same_options_fixed_first", "same_options_larger_dt_max_first"):
+        # the caller keeps one SolverOptions object: a first (quiet) solve with other settings, then the fields are edited in place
+        want = {f: getattr(opts, f) for f in ("adaptive", "dt_init", "dt_max", "output_file")}
+        if prior == "same_options_fixed_first":
+            opts.adaptive, opts.dt_init, opts.dt_max = False, 1e-3, 1e-3
+        else:
+            opts.dt_max = 10 * dtm
+        opts.output_file = "first.h5"
+        tdgl.solve(dev, opts)
+        for f, v in want.items():
+            setattr(opts, f, v)
     try:
         tdgl.solve(dev, opts)
     except RuntimeError as exc:
